@@ -186,6 +186,16 @@ pub struct Point {
     pub step_size: u64,
 }
 
+/// Start time of the environment: 0 for even seeds, 1 000 003 (not a multiple of any step size used) for odd
+/// seeds - a run is a function of seed and parameters whatever the clock starts at.
+pub fn start_of(p: &Point) -> u64 {
+    if p.seed % 2 == 1 {
+        1_000_003
+    } else {
+        0
+    }
+}
+
 /// Which driver runs the simulation
 #[derive(Clone, Copy, Debug, PartialEq, Eq)]
 pub enum Driver {
@@ -273,7 +283,7 @@ fn digest_menv(e: &MarketEnv<2, 10>) -> (u64, u64) {
 }
 
 fn drive_single<A: AgentSet>(p: &Point, agents: &mut A, d: Driver, stream: &mut Vec<Ans>) -> (u64, u64) {
-    let mut env = Env::new(0, p.tick, p.step_size, true);
+    let mut env = Env::new(start_of(p), p.tick, p.step_size, true);
     // a resting two-sided book so that momentum and noise agents see a finite mid-price
     env.place_order(bourse_book::types::Side::Bid, 20, 9999, Some(98 * p.tick)).unwrap();
     env.place_order(bourse_book::types::Side::Ask, 20, 9999, Some(102 * p.tick)).unwrap();
@@ -310,7 +320,7 @@ fn drive_single<A: AgentSet>(p: &Point, agents: &mut A, d: Driver, stream: &mut 
 }
 
 fn drive_multi<A: MarketAgentSet>(p: &Point, agents: &mut A, d: Driver, stream: &mut Vec<Ans>) -> (u64, u64) {
-    let mut env: MarketEnv<2, 10> = MarketEnv::new(0, [p.tick, p.tick], p.step_size, true);
+    let mut env: MarketEnv<2, 10> = MarketEnv::new(start_of(p), [p.tick, p.tick], p.step_size, true);
     for a in 0..2 {
         env.place_order(a, bourse_book::types::Side::Bid, 20, 9999, Some(98 * p.tick)).unwrap();
         env.place_order(a, bourse_book::types::Side::Ask, 20, 9999, Some(102 * p.tick)).unwrap();
